@@ -126,6 +126,9 @@ func TestC11(t *testing.T) {
 			}
 		}
 		if !h.ended {
+			h.lieProbe()
+		}
+		if !h.ended {
 			h.verifyLayout()
 		}
 		h.n.End()
@@ -575,6 +578,48 @@ func (h *hist) opSetBonus() {
 	}
 	h.ops = append(h.ops, fmt.Sprintf("bonus token: bonus=%d", v))
 	h.r.Count(fmt.Sprintf("bonus_token_set_to/%d", v), 1)
+	if h.pick(2) == 0 {
+		h.lieProbe()
+	}
+}
+
+// lieProbe: the bonus token starts to signal failure through its return value instead of reverting (1 = moves the tokens
+// and returns false, 2 = moves nothing and returns false), conversions are attempted in both directions under each mode,
+// and the token becomes honest again. A conversion over a token that says "false" has not happened.
+func (h *hist) lieProbe() {
+	var bp *pair
+	for _, p := range h.pairs {
+		if p.Name == "bonus" {
+			bp = p
+		}
+	}
+	if bp == nil || h.ended || h.bonus == (common.Address{}) {
+		return
+	}
+	set := func(lie int64) bool {
+		data := append([]byte{0x0c, 0x0c, 0x0c, 0x0c}, common.LeftPadBytes(big.NewInt(lie).Bytes(), 32)...)
+		if _, err := h.n.App.AggregateKeeper.CallEVMWithData(h.n.Ctx(), h.dep.Eth, &h.bonus, data); err != nil {
+			return false
+		}
+		h.ops = append(h.ops, fmt.Sprintf("bonus token: return-value mode=%d", lie))
+		return true
+	}
+	h.forcePair = bp
+	defer func() { h.forcePair = nil }()
+	for _, lie := range []int64{1, 2} {
+		if !set(lie) {
+			return
+		}
+		h.r.Count(fmt.Sprintf("bonus_token_return_value_mode/%d", lie), 1)
+		for _, dir := range []string{"erc20", "coin"} {
+			if h.ended {
+				break
+			}
+			h.opConvert(dir)
+			h.invariants(h.touched)
+		}
+	}
+	set(0)
 }
 
 // bonusProbe: tokens of the bonus pair are converted into vouchers while the token behaves (the module's escrow builds
